@@ -310,13 +310,14 @@ template <class G>
 static bool sweep_grid(G& grid, std::mt19937& rng, int rounds, Fail& f)
 {
     const std::size_t n = grid.size();
-    std::uniform_int_distribution<int> small(0, 3), kindd(0, 8), pd(0, 3), coin(0, 1), three(0, 2);
+    std::uniform_int_distribution<int> small(0, 3), kindd(0, 8), pd(0, 3), coin(0, 1), three(0, 3);
     const double ps[4] = { 0.0, 0.5, 1.0, 2.0 };
     for (int r = 0; r < rounds; ++r)
     {
         std::vector<double> e(n);
         int mode = three(rng);
-        for (auto& x : e) x = (mode == 0) ? small(rng) : (mode == 1 ? small(rng) * 0.25 - 0.5 : (small(rng) == 0 ? 0.0 : small(rng) * 1e-3));
+        // mode 3: subnormal relief (steps of a few denorm_min), the scale of the resolvers' +1 ulp fills around elevation 0
+        for (auto& x : e) x = (mode == 0) ? small(rng) : (mode == 1 ? small(rng) * 0.25 - 0.5 : (mode == 2 ? (small(rng) == 0 ? 0.0 : small(rng) * 1e-3) : small(rng) * 4.9406564584124654e-324));
         std::vector<bool> mask(n);
         bool use_mask = coin(rng) && n > 3;
         for (std::size_t i = 0; i < n; ++i) mask[i] = use_mask && (small(rng) == 0);
